@@ -31,6 +31,8 @@ def run_property(pid: str, tier: str, root: str, out_dir=None, overlay=None, qui
     mod = importlib.import_module(f'sa.props.{pid.lower()}')
     ctx = report.Ctx(pid, tier, repo)
     mod.run(ctx)
+    from sa.props import general
+    general.apply(ctx, pid)
     return ctx, t0, repo, mod
 
 
